@@ -4,7 +4,6 @@ import (
 	"fmt"
 	"go/token"
 	"go/types"
-	"math"
 	"unicode/utf8"
 
 	"golang.org/x/tools/go/ssa"
@@ -282,13 +281,6 @@ func (st *State) conv(tdst, tsrc types.Type, x Value) Value {
 		case bd.Info()&types.IsFloat != 0 && us.Info()&types.IsInteger != 0:
 			return IntToFp(t, isSigned(tsrc), basicWidth(bd))
 		case bd.Info()&types.IsInteger != 0 && us.Info()&types.IsFloat != 0:
-			if t.IsConst() {
-				f := t.FVal()
-				if math.IsNaN(f) || math.IsInf(f, 0) {
-					// implementation-defined in Go; amd64 yields MinInt64
-					return BVC(basicWidth(bd), 1<<63)
-				}
-			}
 			return FpToInt(t, isSigned(tdst), basicWidth(bd))
 		case bd.Info()&types.IsFloat != 0 && us.Info()&types.IsFloat != 0:
 			return FpToFp(t, basicWidth(bd))
